@@ -154,3 +154,14 @@ package ice
 //@   site store gatheringState#1 assert state-only-from-a-live-cycle: !gatherCtx.gDone && value == newState
 //@   ensures cancelled-cycle-changes-nothing: old(gatherCtx.gDone) ==> unchangedExcept("Chan.closed") && applied == old(applied)
 //@   ensures live-cycle-applies: !old(ctxIsDone(gatherCtx)) ==> applied && a.gatheringState == newState
+
+// ---- closing ----
+// After Close no new event is accepted (every Enqueue* checks done under the lock,
+// see only-while-open above); a graceful Close returns only after the drainers
+// registered in the wait group have finished.
+//@ func (*handlerNotifier).Close
+//@   props C11
+//@   site call close#1 assert done-is-closed-at-most-once: !closed(h.done) && arg0 == h.done
+//@   site call Wait#1 assert only-a-graceful-close-waits-for-running-handlers: graceful
+//@   ensures closed-afterwards: closed(h.done)
+//@   ensures graceless-close-does-not-wait: true
